@@ -692,3 +692,7 @@ package app
 //@ func (*app.App).repairExternalReplication
 //@   requires vals_nonnil [safety]: masterNode != nil
 //@   ensures C10.external_frame [C10]: repairFrame(masterNode) && e_SetActive == old(e_SetActive)
+
+// ---- C15: the health record is written as an ephemeral key ---------------------------------------------------
+//@ func (*app.appDCS).SetHealthState
+//@   assert_at SetEphemeral#1 C15.health_ephemeral [C15]: unbox(callarg1, "*nodestate.NodeState") == state
